@@ -273,9 +273,20 @@ def run(ctx):
         except Unevaluable:
             bad = bad or "threshold expression not evaluable"
         if tv:
-            tds = cp.defs().get(tv[0], [])
-            ini = [e for e in tds if e[0] == "init"]
-            if not ini or strip(ini[0][2]).cv != 1 or not any(e[0] == "mod" for e in tds):
+            # the counting local may be handed on through copies (result of a counting helper): follow them to the counter itself
+            cur_, okc = tv[0], False
+            for _ in range(5):
+                tds = cp.defs().get(cur_, [])
+                ini = [e for e in tds if e[0] == "init"]
+                if ini and strip(ini[0][2]).cv == 1 and any(e[0] == "mod" for e in tds):
+                    okc = True
+                    break
+                vals = [e for e in tds if e[0] in ("init", "assign") and e[2] is not None]
+                nxt = {strip(e[2]).did for e in vals if strip(e[2]) is not None and strip(e[2]).k == "DeclRefExpr" and strip(e[2]).dk == "local"}
+                if len(vals) != 1 or len(nxt) != 1:
+                    break
+                cur_ = nxt.pop()
+            if not okc:
                 bad = bad or "`threads` does not count this record plus one per older record"
         if cp.dominated_by(bump[0].node, nodeset([c.node])) is not None:
             bad = bad or "older records are bumped before the new record is published"
